@@ -620,14 +620,15 @@ fn scan_wrapper(src: &str) {
                     }
                 }
                 Some(p) => {
-                    // the tokens in front of the first mention end with `try_convert_vec_in_place (` (or with a turbofish)
+                    // the tokens in front of the first mention end with `try_convert_vec_in_place (` (or with a turbofish);
+                    // the call may be the scrutinee of a `match` (no arm `=>` before it), not inside a branch or a loop
                     let callee = "try_convert_vec_in_place";
                     let ok = match toks[..p].iter().rposition(|t| t == callee) {
                         Some(c) => {
                             let between = &toks[c + 1..p];
                             let plain = between.len() == 1 && between[0] == "(";
                             let fish = between.len() >= 5 && between[0] == ":" && between[1] == ":" && between[2] == "<" && between[between.len() - 2] == ">" && between[between.len() - 1] == "(" && !between[..between.len() - 1].iter().any(|t| t == "(");
-                            (plain || fish) && toks.get(p + 1).map_or(false, |t| t == ",") && !toks[..c].iter().any(|t| t == "return" || t == "if" || t == "match" || t == "while" || t == "loop" || t == "for")
+                            (plain || fish) && toks.get(p + 1).map_or(false, |t| t == ",") && !toks[..c].iter().any(|t| t == "return" || t == "if" || t == "while" || t == "loop" || t == "for") && !(toks[..c].iter().any(|t| t == "match") && toks[..c].windows(2).any(|w| w[0] == "=" && w[1] == ">"))
                         }
                         None => false,
                     };
